@@ -3,6 +3,7 @@ import FrappyProofs.Lemmas.CommVisible
 import FrappyProofs.Lemmas.CommRate
 import FrappyProofs.Lemmas.CommBook
 import FrappyProofs.Lemmas.CommTimeout
+import FrappyProofs.Lemmas.CommRet
 import FrappyModel.Generated.C16
 /-
 C16 — property theorems (nothing but property theorems and their non-vacuity examples).
@@ -525,6 +526,44 @@ theorem fails_within_timeout_run (cfg : Cfg) (cbs : List Nat) (evs : List TEv) (
         split at this
         · simp only [Option.some.injEq] at this; subst this; simp at hne
         · simp at this
+
+/-- Every caller receives the reply to its own command — for EVERY accepted run, in the form of what a call RETURNS:
+each reply in the result of a call of caller `c` (return at position b) is framed (first line / first `rlen` bytes)
+from the bytes that arrived on the connection after one of `c`'s OWN sends p < b of that same call (no return of `c`
+between p and b) and before some position w ≤ b — unless the connection was replaced between p and w. -/
+theorem reply_own_ret (cfg : Cfg) (cbs : List Nat) (evs : List TEv) (hacc : Accepted cfg cbs evs)
+    (c b : Nat) (rs : List Bytes) (hb : evAt evs b = some (.ret c (.ok rs))) (l : Bytes) (hl : l ∈ rs) :
+    FreshReply cfg (evs.take b) c l := by
+  unfold Accepted at hacc
+  cases hex : exec { cfg := cfg, cbsReg := cbs } evs with
+  | none => simp [hex] at hacc
+  | some sf =>
+    have hblt : b < evs.length := by
+      false_or_by_contra; rename_i hn
+      rw [evAt_none evs b (by omega)] at hb; simp at hb
+    obtain ⟨eb, heb⟩ : ∃ eb, evs[b]? = some eb := ⟨evs[b], by simp [hblt]⟩
+    have hv : eb.ev = .ret c (.ok rs) := by simpa [evAt, heb] using hb
+    obtain ⟨sk, sk', hpre, hst⟩ := exec_cut _ evs b eb heb sf hex
+    have hq := qinv_exec cfg cbs (evs.take b) sk hpre
+    rw [step_caller_form sk eb c (by rw [hv]; rfl)] at hst
+    split at hst
+    · simp at hst
+    · rw [hv] at hst
+      obtain ⟨hpc, hfail⟩ := step_ret_ok _ sk' eb.t c c rs hst
+      simp only at hpc hfail
+      have hnidle : (sk.callers c).pc ≠ .idle := by rcases hpc with h | h <;> (rw [h]; simp)
+      -- the result is the list of replies collected
+      have hrs : rs = (sk.callers c).replies := by
+        have := hst
+        rcases hpc with h | h <;> simp only [stepCaller, h] at this
+        · split at this
+          · next hg => have := hg; simp only [result, hfail] at this; simpa using this
+          · simp at this
+        · split at this
+          · next hg => have := hg.2; simp only [result, hfail] at this; simpa using this
+          · simp at this
+      rw [hrs] at hl
+      exact hq.q c l hl hnidle
 
 /-- stale data discarded, step level: a `send` is accepted only from the drain state, when everything that had
 arrived on the connection has been read away and the device has not closed; the receive buffer is emptied -/
